@@ -203,10 +203,12 @@ def cliMain (force : Bool) (a : Args) (isDir : String → Bool) (api : List UInt
     { exit := if r.failed then 1 else 0, fs := r.fs, stdout := r.stdout }
 
 /-- `source_modules`: explicit file arguments as they are; for directories every walked file whose
-    name ends with one of the suffixes.  `walk d` lists (joined path, file name) in `os.walk` order. -/
+    name ends with one of the suffixes.  `walk d` lists (joined path, file name) in `os.walk` order.
+    A file reached again (repeated argument, a directory and a file in it) is visited only the first time;
+    the model identifies files by their path (the trees it is compared on contain no symbolic links). -/
 def sourceModules (suffixes : List String) (isDir : String → Bool) (walk : String → List (String × String))
     (paths : List String) : List String :=
-  paths.flatMap fun p =>
-    if isDir p then ((walk p).filter fun e => isTarget suffixes e.2).map (·.1) else [p]
+  (paths.flatMap fun p =>
+    if isDir p then ((walk p).filter fun e => isTarget suffixes e.2).map (·.1) else [p]).eraseDups
 
 end PMV.Cli
